@@ -244,7 +244,11 @@ Inductive vevent :=
 | VNew (g : grid) (saveto : str) (overwrite : bool) (origin_s spacing_s : list str)
 | VCall (id : nat) (sigs : list vec)
 | VWrite (name content : str)
-| VRemove (name : str).
+| VRemove (name : str)
+(* Module.reset() of instance id (directly or through the reset() of a Network that contains it) and
+   Module.sensitivity(): WriteToVTI defines neither _reset nor _sensitivity: the iteration counter and the files stay *)
+| VReset (id : nat)
+| VSens (id : nat).
 
 Fixpoint set_nth {A} (l : list A) (k : nat) (x : A) : list A :=
   match l, k with
@@ -266,7 +270,12 @@ Definition wvti_event (w : vworld) (e : vevent) : res vworld :=
     end
   | VWrite name content => Ok (fs_open_w fs name content, mods)
   | VRemove name => Ok (fs_remove fs name, mods)
+  | VReset id | VSens id => match nth_error mods id with None => Err OtherError | Some _ => Ok (fs, mods) end
   end.
+
+(* the events that concern the sensitivities only *)
+Definition v_quiet (e : vevent) : bool := match e with VReset _ | VSens _ => true | _ => false end.
+Definition v_strip (events : list vevent) : list vevent := filter (fun e => negb (v_quiet e)) events.
 
 (* the file system after every event; the history stops at the first exception, whose class is reported (0: none) *)
 Fixpoint wvti_trace (w : vworld) (events : list vevent) : list fsys * Z :=
